@@ -506,20 +506,21 @@ inline int flavour_main() {
         long samples = 0;
         for (auto& sp : spaces)
             for_each_single_method_registry(sp, [&](const rx::Registry& r0) {
-              for (int doubled = 0; doubled <= 2; ++doubled) {
+              for (int doubled = 0; doubled <= 3; ++doubled) {
                 rx::Registry r = r0;
                 if (doubled) {
                     // one record per id of each class: both ids are registered;
                     // doubled == 2: three records per class, ids interleaved
                     // (id0, id1, id0) as when several libraries register it
-                    int per = doubled + 1;
+                    // doubled == 3: two records, the larger id registered first
+                    int per = doubled == 3 ? 2 : doubled + 1;
                     if (per * r0.nr > rx::MAXR)
                         continue;
                     r.nr = 0;
                     for (int i = 0; i < r0.nr; ++i)
                         for (int k = 0; k < per; ++k) {
                             r.recs[r.nr] = r0.recs[i];
-                            r.recs[r.nr].alias = k & 1;
+                            r.recs[r.nr].alias = doubled == 3 ? 1 - (k & 1) : k & 1;
                             ++r.nr;
                         }
                 }
